@@ -67,6 +67,15 @@ CHECKS = {
             "with the hierarchy",
             "Every rendering of every enumerated hierarchy is compared node by node, cluster by cluster, edge by edge.",
             "DOT text only; graphviz package's own quoting is trusted"),
+    "C15": ("exhaustive exploration of histories: stage pipeline with all placements of <= 2 dict/YAML write-read round trips in the gaps, over "
+            "exhaustively enumerated graphs; each round trip is the real writer + reader; field-by-field comparison incl. successor order",
+            "Histories (stage prefixes interleaved with round-trip chains) are enumerated completely within the deviation bound.",
+            "at most 2 round trips per history; AST payload outside the domain"),
+    "C18": ("explicit-state BFS over name-request sequences; exhaustive histories (stages interleaved with reloads) with the name generator "
+            "and add_block wrapped; exhaustive assignments of generator-namespace names to input blocks",
+            "Freshness is a history property: all request sequences up to the depth bound and all reload placements are explored, with the "
+            "invariant evaluated at the moment a name is handed out.",
+            "wrapping happens inside the checker process; bounded depth / reloads"),
     "C16": ("exhaustive enumeration of closed CFGs x {input, J, JL, JLB}; iterator and concealed view of every (sub)graph compared "
             "with the hierarchy",
             "Every sub-region at every depth of every enumerated hierarchy is iterated and compared.", "bounded scope"),
